@@ -22,3 +22,7 @@ def run(ctx, res):
     serderules.rule_graph(prog, res, ctx.repo)
     serderules.rule_handwritten(prog, res)
     textrules.rule_capacity(prog, res)
+    # Latin-1 strings are serialised through chars() (to_char) and read back through from_char: the round trip needs
+    # from_char(to_char(b)) = b for every byte a string can hold, i.e. the maps of X-map and "a stored byte is never 0"
+    textrules.rule_char_maps(prog, res)
+    textrules.rule_witness_privacy(prog, res)
